@@ -102,7 +102,7 @@ def plan(tier, seed):
 
 def required(tier):
     return {"biv_lognormal-reference": 40, "biv_ind_gamma-reference": 40, "cache1d-quadrature": 10, "cache1d-linear-in-theta": 10,
-            "cache1d-point-mass": 10, "cache1d-point-mass-history": 6, "cache2d-quadrature": 4, "cache2d-point-pos": 4,
+            "cache1d-point-mass": 10, "cache1d-point-mass-history": 6, "cache2d-quadrature": 4, "cache2d-corner-terms-weighty": 3, "cache2d-point-pos": 4,
             "mixture-weights": 4, "no-selection-total-weight": 4, "total-weight-refines": 2, "schedule-independent-bitwise": 10,
             "merge-equals-single": 10, "missing-job-reported": 6, "conflicting-job-reported": 6, "worker-failure-reported": 8,
             "exactly-once": 6}
@@ -285,13 +285,19 @@ def odfe_2d(cache, pdf, params, theta, exterior=True, tight=True):
         fs = fs + np.einsum("i,i,ikl->kl", tw, w2_lethal, S[:, 0]) + np.einsum("i,i,ikl->kl", tw, w2_neutral, S[:, -1])
         fs = fs + np.einsum("j,j,jkl->kl", tw, w1_lethal, S[0, :]) + np.einsum("j,j,jkl->kl", tw, w1_neutral, S[-1, :])
         kd = dict(epsabs=1e-10, epsrel=1e-8) if tight else dict(epsabs=1e-4, epsrel=1e-3)
-        c_nn = si.dblquad(lambda y, xq: pdf(xq, y, params), 0, gmin, 0, gmin, **kd)[0]
-        c_nl = si.dblquad(lambda y, xq: pdf(xq, y, params), 0, gmin, gmax, np.inf, **kd)[0]      # pop1 ~neutral, pop2 ~lethal
-        c_ln = si.dblquad(lambda y, xq: pdf(xq, y, params), gmax, np.inf, 0, gmin, **kd)[0]
+        # (inner variable = first argument, as in the code, so that the run at the code's own tolerances takes the same path)
+        c_nn = si.dblquad(lambda y, xq: pdf(y, xq, params), 0, gmin, 0, gmin, **kd)[0]
+        c_nl = si.dblquad(lambda y, xq: pdf(y, xq, params), gmax, np.inf, 0, gmin, **kd)[0]      # pop1 ~neutral, pop2 ~lethal
+        c_ln = si.dblquad(lambda y, xq: pdf(y, xq, params), 0, gmin, gmax, np.inf, **kd)[0]      # pop1 ~lethal, pop2 ~neutral
         fs = fs + S[-1, -1] * c_nn + S[-1, 0] * c_nl + S[0, -1] * c_ln
-        parts.update(edges=float(tw @ (w1_lethal + w1_neutral + w2_lethal + w2_neutral)), corners=float(c_nn + c_nl + c_ln))
+        parts.update(edges=float(tw @ (w1_lethal + w1_neutral + w2_lethal + w2_neutral)), corners=float(c_nn + c_nl + c_ln),
+                     c_nn=float(c_nn), c_nl=float(c_nl), c_ln=float(c_ln))
         parts["both_lethal"] = si.dblquad(lambda y, xq: pdf(xq, y, params), gmax, np.inf, gmax, np.inf, epsabs=1e-10, epsrel=1e-8)[0]
     return theta * fs, parts
+
+
+def Nneg_(cache):
+    return len(cache.neg_gammas)
 
 
 def draw_biv(rng, PDFs):
@@ -307,13 +313,28 @@ def draw_biv(rng, PDFs):
 
 def run_cache2d(spec, rec, dadi, DFE):
     PDFs = DFE.PDFs
-    for ci in range(spec["n"]):
-        rng = rng_for(spec["seed"], "C17c2", spec["b"], ci)
+    FIXED = [("biv_ind_gamma", [0.35, 0.5, 8.0, 12.0], (0.8, 15.0)), ("biv_lognormal", [1.0, 1.5, 1.8, 2.0, 0.3], (0.8, 15.0)),
+             ("biv_lognormal", [1.2, 2.0, 0.6], (1.0, 12.0))]
+    for ci in range(-len(FIXED) if spec["b"] == 0 else 0, spec["n"]):
+        rng = rng_for(spec["seed"], "C17c2", spec["b"], ci + 100)
         gpts = int(rng.integers(5, 10))
         bounds = (float(10 ** rng.uniform(-3, -1)), float(10 ** rng.uniform(2, 3)))
         name, pdf, params = draw_biv(rng, PDFs)
+        heavy = ci % 2 == 1
+        if ci < 0:
+            # fixed cases in which each of the three corner terms weighs 1e-2 .. 2e-1 of the total
+            name, params, bounds = FIXED[ci]
+            pdf, gpts, heavy = getattr(PDFs, name), 6, True
+        elif heavy:
+            # a narrow cached range under a broad DFE: the edge and corner terms (both neutral, neutral x lethal) carry real weight
+            bounds = (float(10 ** rng.uniform(-0.5, 0.3)), float(10 ** rng.uniform(1.0, 1.5)))
+            if name == "biv_lognormal":
+                params = [float(rng.uniform(-0.5, 2.5)) for _ in range((len(params) - 1) // 2)] + [float(rng.uniform(1.2, 2.2)) for _ in range((len(params) - 1) // 2)] + [params[-1]]
+            else:
+                h = len(params) // 2
+                params = [float(rng.uniform(0.2, 0.6)) for _ in range(h)] + [float(rng.uniform(3, 30)) for _ in range(h)]
         theta = float(rng.choice([0.1, 1.0, 7.0, 1e4]))
-        desc = {"gamma_pts": gpts, "bounds": bounds, "pdf": name, "params": params, "theta": theta}
+        desc = {"gamma_pts": gpts, "bounds": bounds, "pdf": name, "params": params, "theta": theta, "heavy_tails": heavy}
         if not rec.case("c2-%d-%d" % (spec["b"], ci), desc, nontrivial=True):
             continue
         tags = {"pdf": name, "nparams": len(params)}
@@ -325,11 +346,21 @@ def run_cache2d(spec, rec, dadi, DFE):
             ok, fs = rec.noraise("integrate-returns", lambda: c2.integrate(params, None, pdf, theta, None, exterior_int=ext), site="Cache2D.integrate", tags=tags)
             if ok:
                 ref, parts = odfe_2d(c2, pdf, params, theta, ext)
-                smax = float(np.max(np.abs(c2.spectra)))
-                # tails are computed by the code with epsrel=1e-3 / epsabs=1e-4: judge grid terms at 1e-10 and tails at that accuracy
-                tail_mass = (parts.get("edges", 0.0) + parts.get("corners", 0.0))
-                tol = 1e-10 + (2e-3 * tail_mass + 4e-4 * (4 * gpts + 3)) * smax * theta / max(float(np.max(np.abs(ref))), 1e-300) if ext else 1e-10
+                # the code asks scipy for its tails at epsrel=1e-3 / epsabs=1e-4.  What that request actually costs is measured, not
+                # assumed: the same quadrature re-run at the code's own tolerances differs from the tight one by err_q, and the code
+                # is judged at 3 * err_q (a dropped or misplaced term is far above that whenever the term carries weight)
+                smin = float(np.min(np.abs(c2.spectra[:Nneg_(c2), :Nneg_(c2)][..., 1, 1])))
+                if ext:
+                    ref_loose, _ = odfe_2d(c2, pdf, params, theta, True, tight=False)
+                    err_q = relerr(ref_loose, ref)
+                    tol = 1e-8 + 3 * err_q
+                    rec.hit("cache2d-corner-weight>1e-3" if parts["corners"] > 1e-3 else "cache2d-corner-weight<=1e-3")
+                else:
+                    tol = 1e-10
                 rec.close("cache2d-quadrature", relerr(np.asarray(fs.data), ref), tol, site="Cache2D.integrate", tags=dict(tags, exterior=ext))
+                if ext and min(parts["c_nn"], parts["c_nl"], parts["c_ln"]) * smin / max(float(np.max(np.abs(ref))) / theta, 1e-300) > 10 * tol:
+                    # every corner term is individually far above the tolerance in this case
+                    rec.close("cache2d-corner-terms-weighty", relerr(np.asarray(fs.data), ref), tol, site="Cache2D.integrate", tags=tags)
         ok1, f1 = rec.noraise("integrate-returns", lambda: c2.integrate(params, None, pdf, 1.0, None), site="Cache2D.integrate", tags=tags)
         ok2, f2 = rec.noraise("integrate-returns", lambda: c2.integrate(params, None, pdf, theta, None), site="Cache2D.integrate", tags=tags)
         if ok1 and ok2:
